@@ -631,6 +631,14 @@ static Boolean DecodePseudo(void) {
             OK = True;
             while ((OK) && (z <= ArgCnt)) {
                 EvalStrExpression(&ArgStr[z], &t);
+                if (SetMaxCodeLen(
+                            4
+                            * (CodeLen + 1
+                               + ((t.Typ == TempString) ? t.Contents.str.len : 0)))) {
+                    WrError(ErrNum_CodeOverflow);
+                    OK = False;
+                    break;
+                }
                 switch (t.Typ) {
                 case TempString:
                     if (MultiCharToInt(&t, 4)) {
